@@ -7,6 +7,7 @@ import GoldilocksVerif.Model.Ext
 import GoldilocksVerif.Model.Sponge
 import GoldilocksVerif.Model.Ntt
 import GoldilocksVerif.Model.ParCopy
+import GoldilocksVerif.Model.NttAlloc
 import GoldilocksVerif.Gen.PosScalar
 import GoldilocksVerif.Gen.PosAvx2
 import GoldilocksVerif.Gen.PosAvx512
@@ -209,7 +210,34 @@ def c17 (fn : String) (args : List Arg) : Option String :=
       okW (Region.toList (parSetZero (Region.ofList dst) size.toNat nt.toInt) dst.length)
   | _, _ => none
 
+/-- C18: the allocation trace predicted by Model/NttAlloc.lean, in the harness's word encoding -/
+def c18Calls : List Arg → List GoldilocksVerif.NttAlloc.Call → Option (List GoldilocksVerif.NttAlloc.Call)
+  | [], acc => some acc.reverse
+  | .w op :: .w n :: .w next :: .w ncols :: .w _nphase :: .w nblock :: .w usebuf :: rest, acc =>
+      let c := if op == 2#64 then GoldilocksVerif.NttAlloc.Call.extendPol next.toNat n.toNat ncols.toNat nblock.toNat (usebuf != 0#64)
+               else GoldilocksVerif.NttAlloc.Call.ntt n.toNat ncols.toNat nblock.toNat (usebuf != 0#64)
+      c18Calls rest (c :: acc)
+  | _, _ => none
+
+def c18 (fn : String) (args : List Arg) : Option String :=
+  open GoldilocksVerif.NttAlloc in
+  match fn, args with
+  | "nttalloc", .w objSize :: .w _thr :: .w _n :: rest =>
+    match c18Calls rest [] with
+    | none => some "err parse"
+    | some cs =>
+      let fam : Kind → BitVec 64 := fun k => match k with
+        | .malloc => 0#64 | .newArr => 1#64 | .scalar => 2#64
+      let ws := (lifeEv objSize.toNat cs).flatMap (fun e => match e with
+        | .alloc k b => [1#64, fam k, BitVec.ofNat 64 b]
+        | .free k i => [2#64, fam k, BitVec.ofNat 64 i])
+      okW ws
+  | _, _ => none
+
 def handDispatch (fn : String) (args : List Arg) : Option String :=
+  match c18 fn args with
+  | some s => some s
+  | none =>
   match c17 fn args with
   | some s => some s
   | none =>
